@@ -22,8 +22,8 @@ theorem unlink_phase_crashX (g : Geom) (hB : g.B ≤ 65542) {l2 : Log} {J2 : Lis
         (((gcFiles ((writeTouches g l2 names).1.canDelete l2.cur) (writeTouches g l2 names).1.files).2.take k).map
           OsOp.unlink)) := by
   intro policy
-  obtain ⟨init, t, x, afs, lead, gs, hx⟩ := h.disk
-  obtain ⟨i3, t3, x3, ntf, ngs, B, y3, _⟩ := touches_extX g (l2.files.headD 0) lead names l2 D2 J2 init t x afs gs hx
+  obtain ⟨init, t, x, res, ais, lead, gs, hx⟩ := h.disk
+  obtain ⟨i3, t3, x3, r3, ais3, gs3, y3, _⟩ := touches_extX g (l2.files.headD 0) lead names l2 D2 J2 init t x res ais gs hx
   have k1 := y3.tape
   rcases hg : gcFiles ((writeTouches g l2 names).1.canDelete l2.cur) (writeTouches g l2 names).1.files
     with ⟨rem, del⟩
